@@ -177,6 +177,12 @@ func (ps *procSrc) procCount(mainFn string) string {
 					ranges++
 				}
 			case *ast.CallExpr:
+				if id, ok := n.Fun.(*ast.Ident); ok && id.Name == "make" && len(n.Args) == 1 {
+					// an unbuffered channel (capacity 0), e.g. one that is only ever closed (saveDone)
+					if _, ok := n.Args[0].(*ast.ChanType); ok {
+						caps = append(caps, 0)
+					}
+				}
 				if id, ok := n.Fun.(*ast.Ident); ok && id.Name == "make" && len(n.Args) == 2 {
 					if _, ok := n.Args[0].(*ast.ChanType); ok {
 						switch a := n.Args[1].(type) {
